@@ -1,10 +1,10 @@
-\* C19 thorough: expression trees at QuickSizes
+\* C19 thorough: expression trees at QuickSizes (prec, lambda, lit, postfix, cmd), canonical layout
 SPECIFICATION LSpec
 CONSTANTS
-  Foci = {"prec", "ops", "postfix", "lambda", "lit", "atoms", "slidx", "cmd"}
+  Foci = {"prec", "lambda", "lit", "cmd", "postfix"}
   Sizes <- QuickSizes
   LFoci = {"xasg", "xcmd"}
-  Bases = {"canon", "nl"}
+  Bases = {"canon"}
   MaxGap = 0
   MaxCm = 0
   CmKinds = {}
